@@ -1040,6 +1040,10 @@ class Interp:
             cur = self.rv(cur0, env)
             if isinstance(cur0, tuple) and cur0 and cur0[0] == "MEM":
                 cur = self.heap_value(e.c[0].strip(), env, fn, depth)
+                if not _has_effects(e.c[0]):
+                    pr_, sr_ = self.addr(e.c[0].strip(), env, fn, depth)
+                    if pr_ is not None:
+                        self.access(pr_, sr_, "r", e)        # `x op= y` reads x before it writes it
             r = self.rv(self.ev(e.c[1], env, fn, depth), env)
             v = self.arith(op[:-1], cur, r, e.c[0].t, e)
             self.lval_set(e.c[0], v, env, fn, depth)
